@@ -710,7 +710,7 @@ impl EliasFanoBuilder {
     /// Creates a builder for an [`EliasFano`] containing
     /// `n` numbers smaller than or equal to `u`.
     pub fn new(n: usize, u: usize) -> Self {
-        let l = if u >= n {
+        let l = if n > 0 && u >= n {
             (u as f64 / n as f64).log2().floor() as usize
         } else {
             0
@@ -871,7 +871,7 @@ impl EliasFanoConcurrentBuilder {
     /// Creates a concurrent builder for a sequence containing `n` nonnegative
     /// numbers smaller than or equal to `u`.
     pub fn new(n: usize, u: usize) -> Self {
-        let l = if u >= n {
+        let l = if n > 0 && u >= n {
             (u as f64 / n as f64).log2().floor() as usize
         } else {
             0
